@@ -79,9 +79,15 @@ def w_ortho_trunc(ctx, rng, idx):
             cores[i] = np.tensordot(cores[i], g, axes=([3], [0]))
             cores[i + 1] = np.tensordot(np.linalg.pinv(g), cores[i + 1], axes=([1], [0]))
 
+    hist_seed = int(rng.integers(0, 2 ** 31))
+
     def fresh():
         with probe.oracle():
-            return tt.TT([c.copy() for c in cores])
+            t_ = tt.TT([c.copy() for c in cores])
+            if with_history:  # the same history for every copy: sweeps, in-place mutators that no sweep is told about, re-construction
+                t_ = gen.provenance(np.random.default_rng(hist_seed), t_, steps=int(hist_seed % 3) + 1, reorder=True)
+            return t_
+    with_history = rng.random() < 0.4
     mr = int(rng.integers(1, 5))
     mrl = [1] + [int(rng.integers(1, 5)) for _ in range(d - 1)] + [1]
     thr = float(10 ** rng.uniform(-8, np.log10(0.5)))
@@ -125,10 +131,34 @@ def finish(ctx):
     ctx.events['failpoint_hits_total'] += probe.S.failpoint_hits
 
 
+def w_from_large_array(ctx, rng, idx):
+    """full arrays whose unfoldings are far wider than high (a small leading mode, tens of thousands of columns): the sizes
+    where an implementation might switch to another algorithm; every clause of the array branch applies unchanged"""
+    d = int(rng.integers(3, 5))
+    rows = [int(rng.integers(2, 4))] + [int(rng.integers(8, 31)) for _ in range(d - 1)]
+    while int(np.prod(rows)) > 60000:
+        rows[int(np.argmax(rows))] -= 3
+    cplx = bool(rng.integers(0, 2))
+    k = int(rng.integers(0, 2))
+    if k == 0:
+        x = gen.randn(rng, rows + [1] * d, cplx)
+        kind = 'flat_spectrum'
+    else:
+        x = gen.low_rank_tensor(rng, rows, [1] * d, [1] + [int(rng.integers(1, 4)) for _ in range(d - 1)] + [1], noise=1e-3, cplx=cplx)
+        kind = 'lowrank_plus_noise'
+    mr = int(rng.integers(1, 4))
+    thr = float(10 ** rng.uniform(-6, -1))
+    ctx.describe({'op': 'TT(large ndarray)', 'shape': list(x.shape), 'kind': kind, 'complex': cplx, 'max_rank': mr, 'threshold': thr})
+    call('TT.__init__', lambda: tt.TT(x), prop=P, tags=['large'])
+    call('TT.__init__', lambda: tt.TT(x, max_rank=mr), prop=P, tags=['large'])
+    call('TT.__init__', lambda: tt.TT(x, threshold=thr), prop=P, tags=['large'])
+
+
 WORKLOADS = [
     Workload('from_array', w_from_array, 320, 8000),
     Workload('ortho_trunc', w_ortho_trunc, 200, 5000),
     Workload('failpoint', w_failpoint, 40, 800),
+    Workload('from_large_array', w_from_large_array, 8, 60),
     ambient.WORKLOAD,
 ]
 REQUIRED = ['C04|failpoint:default_svd_driver_failure_injected', 'C04|TT.__init__:rank_bound', 'C04|TT.__init__:quasi_optimal_error', 'C04|TT.__init__:threshold_error',
